@@ -164,7 +164,11 @@ extern "C" void harness_run()
   uint32_t peerStartDelay = (uint32_t)sim::draw(3000);
   int nops = 6 + (int)sim::draw(th ? 60 : 30);
   std::vector<Op> plan;
-  bool two = !overflowRun && sim::draw(5) == 4; // a second thread switches modes concurrently
+  // (A second application thread switching modes concurrently was generated here at first. The property quantifies over the I/O
+  // thread against ONE application thread; two overlapping setReadMode() calls flush the sync buffer from two threads at once and
+  // their callbacks interleave - outside the property, so no longer generated. The draw is kept so that plans stay comparable.)
+  bool two = false;
+  (void)sim::draw(5);
   std::vector<Op> plan2;
   for (int i = 0; i < nops; i++)
   {
@@ -406,8 +410,13 @@ extern "C" void harness_run()
     for (size_t i = 0; i < ms.size(); i++)
     {
       if (ms[i].mode != ReadMode::Disabled || !ms[i].ok) continue;
+      // another mode switch that overlaps this call (second thread) may take effect before or after it: no stable window then
+      bool overlapped = false;
+      for (size_t k = 0; k < ms.size(); k++) if (k != i && ms[k].sp.inv < ms[i].sp.ret && ms[k].sp.ret > ms[i].sp.inv) overlapped = true;
+      if (overlapped) continue;
       disabledWindows++;
-      uint64_t from = ms[i].sp.ret, to = i + 1 < ms.size() ? ms[i + 1].sp.inv : UINT64_MAX;
+      uint64_t from = ms[i].sp.ret, to = UINT64_MAX;
+      for (size_t k = 0; k < ms.size(); k++) if (k != i && ms[k].sp.inv > ms[i].sp.ret) to = std::min(to, ms[k].sp.inv);
       int inWindow = 0;
       for (auto& v : w.vis) if (!v.sync && v.start > from && v.start < to) inWindow++;
       // one delivery may have been decided (mode read) before Disabled took effect and invoked afterwards
@@ -427,6 +436,24 @@ extern "C" void harness_run()
   {
     if (overflowRun)
       sim::fail("c03-overflow-gap", "small sync buffer (%zu B): the reader obtained bytes from beyond a dropped chunk: %s", tc.maxSyncReceiveBuffer, why.c_str());
+    if (sim::verbose())
+    {
+      // debugging aid: the deliveries around the first mismatch, in end order, and the mode switches
+      std::vector<size_t> order(w.vis.size());
+      for (size_t i = 0; i < order.size(); i++) order[i] = i;
+      std::sort(order.begin(), order.end(), [&](size_t a, size_t b) { return w.vis[a].end < w.vis[b].end; });
+      size_t acc = 0;
+      for (size_t k = 0; k < order.size(); k++)
+      {
+        auto& v = w.vis[order[k]];
+        if (acc + v.bytes.size() + 6 >= pos && acc <= pos + 6)
+          sim::notef("delivery #%zu %s thr=%d stamps %llu..%llu %zu bytes (%s) cumulative offset %zu", k, v.sync ? "receiveSync" : "callback", v.thr, (unsigned long long)v.start, (unsigned long long)v.end,
+                     v.bytes.size(), hx::hex(v.bytes, 6).c_str(), acc);
+        acc += v.bytes.size();
+      }
+      for (auto& m : w.modes) sim::notef("mode %d ok=%d stamps %llu..%llu", (int)m.mode, m.ok, (unsigned long long)m.sp.inv, (unsigned long long)m.sp.ret);
+      sim::notef("expected bytes at %zu: %s", pos, hx::hex(w.peer_stream.substr(pos, 6)).c_str());
+    }
     sim::fail("c03-stream", "visible stream (%zu bytes in %zu deliveries) is not the peer's stream: %s", visBytes, w.vis.size(), why.c_str());
   }
   if (visBytes > w.peer_tx) sim::fail("c03-stream", "application saw %zu bytes but the peer wrote only %zu", visBytes, w.peer_tx);
